@@ -1,9 +1,196 @@
 (* C12 - assert_constraints accepts exactly the weights that meet the covered
-   constraints.  Property theorems only; proofs live in Proofs/Asserts.v. *)
+   constraints.  Property theorems only; proofs live in Proofs/Asserts.v.
+
+   [assert_K cfg w eps : bool] (Model/Asserts.v) is true when every tf.Assert of
+   the layer kind K passes.  The covered constraints are stated independently of
+   the assert's own slicing: for the Lattice as a type of inequality instances
+   [lat_ineq] with membership [covered] (ALL valid index vectors, i.e. every
+   vertex, pair, square and unit) and [slack] (>= 0 = satisfied, violation =
+   - slack); for the other kinds as a predicate [K_feasible cfg w eps] = every
+   covered inequality holds up to eps, quantified over all rows / units / pairs.
+   Comparisons are the code's: non-strict (>= -eps, <= eps) everywhere except the
+   Linear norm test (strict < eps) and the KFL sign / scale-range tests (no eps). *)
 From TFL Require Import Model.Asserts Proofs.Asserts.
 Open Scope Q_scope.
 
+(* ---------------- Lattice (monotonicity, Edgeworth, trapezoid, monotonic and
+   range dominance, joint monotonicity, bounds) ---------------- *)
+Theorem C12_lattice_sound : forall c W eps q,
+  la_ok c -> covered c q -> slack c W q < - eps -> assert_lattice c W eps = false.
+Proof. exact lattice_sound. Qed.
+Print Assumptions C12_lattice_sound.
+
+Theorem C12_lattice_complete : forall c W eps,
+  la_ok c -> 0 <= eps -> (forall q, covered c q -> - eps <= slack c W q) -> assert_lattice c W eps = true.
+Proof. exact lattice_complete. Qed.
+Print Assumptions C12_lattice_complete.
+
+Theorem C12_lattice_exact : forall c W eps, la_ok c -> 0 <= eps ->
+  (assert_lattice c W eps = true <-> forall q, covered c q -> - eps <= slack c W q).
+Proof. exact lattice_exact. Qed.
+Print Assumptions C12_lattice_exact.
+
+(* the same for the flat (prod(sizes), units) kernel the layer stores *)
+Theorem C12_lattice_flat_sound : forall c w eps q, la_ok c -> covered c q ->
+  slack c (of_list (a_shape c) w) q < - eps -> assert_lattice_flat c w eps = false.
+Proof. exact lattice_flat_sound. Qed.
+Print Assumptions C12_lattice_flat_sound.
+
+Theorem C12_lattice_flat_complete : forall c w eps, la_ok c -> 0 <= eps ->
+  (forall q, covered c q -> - eps <= slack c (of_list (a_shape c) w) q) -> assert_lattice_flat c w eps = true.
+Proof. exact lattice_flat_complete. Qed.
+Print Assumptions C12_lattice_flat_complete.
+
+(* link with C01: with eps = 0 the assert accepts exactly the kernels that are
+   feasible in the sense of Proofs/LatticeSpec.v (what C01 proves about the
+   strict projection), and with any eps >= 0 it accepts all of them *)
+Theorem C12_lattice_zero_eps_is_C01_feasible : forall c f, cfg_valid c ->
+  (assert_lattice (la_of c) f 0 = true <-> feasible_kernel c f).
+Proof. exact assert_zero_iff_feasible. Qed.
+Print Assumptions C12_lattice_zero_eps_is_C01_feasible.
+
+Theorem C12_lattice_accepts_C01_feasible : forall c f eps, cfg_valid c -> feasible_kernel c f -> 0 <= eps ->
+  assert_lattice (la_of c) f eps = true.
+Proof. exact assert_accepts_feasible. Qed.
+Print Assumptions C12_lattice_accepts_C01_feasible.
+
+(* ---------------- RTL: conjunction over its lattice layers ---------------- *)
 Theorem C12_rtl_conjunction : forall layers eps,
   assert_rtl layers eps = true <-> forall c w, In (c, w) layers -> assert_lattice_flat c w eps = true.
 Proof. exact assert_rtl_iff. Qed.
 Print Assumptions C12_rtl_conjunction.
+
+Theorem C12_rtl_sound : forall layers eps c w q, In (c, w) layers -> la_ok c -> covered c q ->
+  slack c (of_list (a_shape c) w) q < - eps -> assert_rtl layers eps = false.
+Proof. exact rtl_sound. Qed.
+Print Assumptions C12_rtl_sound.
+
+Theorem C12_rtl_complete : forall layers eps, 0 <= eps ->
+  (forall c w, In (c, w) layers -> la_ok c /\ forall q, covered c q -> - eps <= slack c (of_list (a_shape c) w) q) ->
+  assert_rtl layers eps = true.
+Proof. exact rtl_complete. Qed.
+Print Assumptions C12_rtl_complete.
+
+(* ---------------- PWL calibration (bounds, clamps per unit, monotonicity) ---------------- *)
+Theorem C12_pwl_exact : forall c outs eps, outs <> [] -> 0 <= eps ->
+  (assert_pwl_outputs c outs eps = true <-> pwl_feasible c outs eps).
+Proof. exact pwl_exact. Qed.
+Print Assumptions C12_pwl_exact.
+
+Theorem C12_pwl_sound : forall c outs eps, outs <> [] -> 0 <= eps ->
+  ~ pwl_feasible c outs eps -> assert_pwl_outputs c outs eps = false.
+Proof. exact pwl_sound. Qed.
+Print Assumptions C12_pwl_sound.
+
+Theorem C12_pwl_complete : forall c outs eps, outs <> [] -> 0 <= eps ->
+  pwl_feasible c outs eps -> assert_pwl_outputs c outs eps = true.
+Proof. exact pwl_complete. Qed.
+Print Assumptions C12_pwl_complete.
+
+Theorem C12_pwl_sound_monotonicity : forall c outs eps k u, outs <> [] -> 0 <= eps -> pa_mono c <> 0%Z ->
+  (S k < length outs)%nat -> (u < pa_units c)%nat ->
+  (out_at outs (S k) u - out_at outs k u) * inject_Z (pa_mono c) < - eps -> assert_pwl_outputs c outs eps = false.
+Proof. exact pwl_sound_mono. Qed.
+Print Assumptions C12_pwl_sound_monotonicity.
+
+Theorem C12_pwl_sound_lower_bound : forall c outs eps lo k u, outs <> [] -> 0 <= eps -> pa_min c = Some lo ->
+  (k < length outs)%nat -> (u < pa_units c)%nat -> out_at outs k u < lo - eps -> assert_pwl_outputs c outs eps = false.
+Proof. exact pwl_sound_lower. Qed.
+Print Assumptions C12_pwl_sound_lower_bound.
+
+Theorem C12_pwl_sound_upper_bound : forall c outs eps hi k u, outs <> [] -> 0 <= eps -> pa_max c = Some hi ->
+  (k < length outs)%nat -> (u < pa_units c)%nat -> hi + eps < out_at outs k u -> assert_pwl_outputs c outs eps = false.
+Proof. exact pwl_sound_upper. Qed.
+Print Assumptions C12_pwl_sound_upper_bound.
+
+(* a clamp is violated as soon as ONE unit stays away from the bound *)
+Theorem C12_pwl_sound_clamp_min : forall c outs eps lo u, outs <> [] -> 0 <= eps -> pa_min c = Some lo ->
+  pa_clamp_min c = true -> (u < pa_units c)%nat ->
+  (forall k, (k < length outs)%nat -> lo + eps < out_at outs k u) -> assert_pwl_outputs c outs eps = false.
+Proof. exact pwl_sound_clamp_min. Qed.
+Print Assumptions C12_pwl_sound_clamp_min.
+
+Theorem C12_pwl_sound_clamp_max : forall c outs eps hi u, outs <> [] -> 0 <= eps -> pa_max c = Some hi ->
+  pa_clamp_max c = true -> (u < pa_units c)%nat ->
+  (forall k, (k < length outs)%nat -> out_at outs k u < hi - eps) -> assert_pwl_outputs c outs eps = false.
+Proof. exact pwl_sound_clamp_max. Qed.
+Print Assumptions C12_pwl_sound_clamp_max.
+
+(* the layer asserts on the prefix sums of its kernel (+ the closing point when
+   cyclic) and on the learned missing output *)
+Theorem C12_pwl_layer_exact : forall c kernel eps, kernel <> [] -> 0 <= eps ->
+  (assert_pwl_layer c kernel eps = true <->
+   pwl_feasible (pl_cfg c) (pwl_keypoint_outputs (pa_units (pl_cfg c)) (pl_cyclic c) kernel) eps /\
+   missing_feasible c eps).
+Proof. exact pwl_layer_exact. Qed.
+Print Assumptions C12_pwl_layer_exact.
+
+Theorem C12_pwl_layer_outputs_are_prefix_sums : forall units cyclic kernel k u,
+  (k < length kernel)%nat -> (u < units)%nat ->
+  out_at (pwl_keypoint_outputs units cyclic kernel) k u == qsum (firstn (S k) (column u kernel)).
+Proof. exact keypoint_outputs_at. Qed.
+Print Assumptions C12_pwl_layer_outputs_are_prefix_sums.
+
+(* ---------------- Linear (signs, monotonic and range dominance, norm) ---------------- *)
+Theorem C12_linear_exact : forall c K eps, 0 <= eps -> (assert_linear c K eps = true <-> lin_feasible c K eps).
+Proof. exact lin_exact. Qed.
+Print Assumptions C12_linear_exact.
+
+Theorem C12_linear_sound : forall c K eps, 0 <= eps -> ~ lin_feasible c K eps -> assert_linear c K eps = false.
+Proof. exact lin_sound. Qed.
+Print Assumptions C12_linear_sound.
+
+Theorem C12_linear_complete : forall c K eps, 0 <= eps -> lin_feasible c K eps -> assert_linear c K eps = true.
+Proof. exact lin_complete. Qed.
+Print Assumptions C12_linear_complete.
+
+(* the model's comparison of squares is the comparison of the L2 norm, for any
+   r >= 0 with r * r == sum of squares (the value tf.norm returns) *)
+Theorem C12_linear_l2_norm_meaning : forall r s eps, 0 <= r -> r * r == s -> 0 <= eps ->
+  (qabs (r - 1) < eps <-> s < (1 + eps) * (1 + eps) /\ (1 - eps < 0 \/ (1 - eps) * (1 - eps) < s)).
+Proof. exact l2_check_meaning. Qed.
+Print Assumptions C12_linear_l2_norm_meaning.
+
+Theorem C12_linear_l2_zero_norm_meaning : forall r s ne, 0 <= r -> r * r == s -> 0 < ne ->
+  (qabs r < ne <-> s < ne * ne).
+Proof. exact l2_zero_meaning. Qed.
+Print Assumptions C12_linear_l2_zero_norm_meaning.
+
+(* ---------------- Categorical (bounds, ordering pairs) ---------------- *)
+Theorem C12_categorical_exact : forall c K eps, K <> [] -> (1 <= ca_units c)%nat -> 0 <= eps ->
+  (assert_categorical c K eps = true <-> cat_feasible c K eps).
+Proof. exact cat_exact. Qed.
+Print Assumptions C12_categorical_exact.
+
+Theorem C12_categorical_sound : forall c K eps, K <> [] -> (1 <= ca_units c)%nat -> 0 <= eps ->
+  ~ cat_feasible c K eps -> assert_categorical c K eps = false.
+Proof. exact cat_sound. Qed.
+Print Assumptions C12_categorical_sound.
+
+Theorem C12_categorical_complete : forall c K eps, K <> [] -> (1 <= ca_units c)%nat -> 0 <= eps ->
+  cat_feasible c K eps -> assert_categorical c K eps = true.
+Proof. exact cat_complete. Qed.
+Print Assumptions C12_categorical_complete.
+
+(* one violated pair fails the assert whatever the other pairs do (defect D9, fixed) *)
+Theorem C12_categorical_sound_any_pair : forall c K eps i j u, K <> [] -> (1 <= ca_units c)%nat -> 0 <= eps ->
+  In (i, j) (ca_pairs c) -> (u < ca_units c)%nat -> eps < kat K i u - kat K j u -> assert_categorical c K eps = false.
+Proof. exact cat_sound_pair. Qed.
+Print Assumptions C12_categorical_sound_any_pair.
+
+(* ---------------- Kronecker-factored lattice (sign-aware monotonicity, |term| <= 1 + eps
+   at every vertex, no negative weights, scale range) ---------------- *)
+Theorem C12_kfl_exact : forall c Sc K eps, (1 <= k_L c)%nat -> 0 <= eps ->
+  (assert_kfl c Sc K eps = true <-> kfl_feasible c Sc K eps).
+Proof. exact kfl_exact. Qed.
+Print Assumptions C12_kfl_exact.
+
+Theorem C12_kfl_sound : forall c Sc K eps, (1 <= k_L c)%nat -> 0 <= eps ->
+  ~ kfl_feasible c Sc K eps -> assert_kfl c Sc K eps = false.
+Proof. exact kfl_sound. Qed.
+Print Assumptions C12_kfl_sound.
+
+Theorem C12_kfl_complete : forall c Sc K eps, (1 <= k_L c)%nat -> 0 <= eps ->
+  kfl_feasible c Sc K eps -> assert_kfl c Sc K eps = true.
+Proof. exact kfl_complete. Qed.
+Print Assumptions C12_kfl_complete.
